@@ -48,6 +48,42 @@ class HeapRewriter:
         self.keep.append(e)
         return r
 
+    def existed_before(self, t, ev, depth=0) -> bool:
+        """t certainly denotes an object that existed before event number ev (None: unknown)."""
+        if ev is None or depth > 6 or not z3.is_app(t):
+            return False
+        if self.entry(t):
+            return True
+        if z3.is_const(t):
+            e = smt.EVENT.get(t.decl().name())
+            return t.get_id() in self.fresh and e is not None and e < ev
+        n = t.decl().name()
+        if n.startswith("A_") and t.num_args() == 1:
+            return self.existed_before(t.arg(0), ev, depth + 1)
+        if z3.is_app_of(t, z3.Z3_OP_ITE):
+            return self.existed_before(t.arg(1), ev, depth + 1) and self.existed_before(t.arg(2), ev, depth + 1)
+        if z3.is_select(t) and t.sort() == smt.V:
+            return self.array_before(t.arg(0), ev, depth + 1)
+        return False
+
+    def array_before(self, a, ev, depth=0) -> bool:
+        """Every value held in the array term a is an object that existed before event ev."""
+        if depth > 12 or not z3.is_app(a):
+            return False
+        if z3.is_const(a):
+            e = smt.EVENT.get(a.decl().name())
+            return e is not None and e < ev
+        if z3.is_select(a):  # an inner array read out of an outer one
+            return self.array_before(a.arg(0), ev, depth + 1)
+        if z3.is_store(a):
+            v = a.arg(2)
+            ok_v = self.array_before(v, ev, depth + 1) if z3.is_array(v) else (v.sort() != smt.V or self.existed_before(v, ev, depth + 1))
+            return ok_v and self.array_before(a.arg(0), ev, depth + 1)
+        if z3.is_K(a):
+            v = a.arg(0)
+            return self.array_before(v, ev, depth + 1) if z3.is_array(v) else (v.sort() != smt.V or self.existed_before(v, ev, depth + 1))
+        return False
+
     def distinct(self, a, b) -> bool:
         if a.get_id() == b.get_id():
             return False
@@ -55,6 +91,11 @@ class HeapRewriter:
         if fa and fb:
             return True  # allocations are pairwise distinct (asserted at allocation)
         if (fa and self.entry(b)) or (fb and self.entry(a)):
+            return True
+        # a reference allocated AFTER a heap array was created differs from every value read out of that array
+        if fa and self.existed_before(b, smt.EVENT.get(a.decl().name())):
+            return True
+        if fb and self.existed_before(a, smt.EVENT.get(b.decl().name())):
             return True
         if z3.is_app(a) and z3.is_app(b):
             na, nb = a.decl().name(), b.decl().name()
